@@ -32,6 +32,8 @@ def parseOutcome (s : String) : Option Outcome :=
   | ["na", a] => some (.notAllowed (unhexStr a))
   | ["raise", c, m, t] => some (.raises (unhexStr c) (unhexStr m) (unhexStr t))
   | ["reqerr", c, m, t] => some (.requestError c (unhexStr m) (unhexStr t))
+  | ["iter", c, m, t] => some (.iterRaises (unhexStr c) (unhexStr m) (unhexStr t))
+  | ["badtype", t] => some (.unsupportedType (unhexStr t))
   | ["abort", c, t] => c.toNat?.map fun n => .abort n (optStr t)
   | ["ok", b] => some (.ok (unhexStr b))
   | _ => none
